@@ -24,6 +24,19 @@ InvOK(t) ==
     /\ t.bnret = 0 /\ t.bqsz = 0 /\ t.buntouched = 1        \* ... which refuses the burst, queue unchanged
     /\ t.abi = 0
 
+\* scatter-gather suites (hand-built sessions in the driver): same verdicts, catalogue = SglRules
+SglCount == LET F(mode) == Cardinality(SglRules(mode, "init")) + Cardinality(SglRules(mode, "update"))
+                          + Cardinality(SglRules(mode, "complete")) + Cardinality(SglRules(mode, "all"))
+            IN F(GCM_SGL) + F(CHAPOLY_SGL)
+InvSglOK(t) ==
+    /\ t.mode \in SglModes /\ t.state \in SglStates
+    /\ R(t.field, t.cls, t.exp) \in SglRules(t.mode, t.state)
+    /\ t.known = 1
+    /\ t.base_st = 3 /\ t.base_errno = 0
+    /\ t.st = 4 /\ t.errno = t.exp
+    /\ t.untouched = 1 /\ t.qsz = 0 /\ t.next_ok = 1
+    /\ t.abi = 0
+
 \* misuse of the burst calls
 E_NULL_JOB == 2046   E_BURST_OOO == 2050   E_BURST_SUITE_ID == 2052
 MisuseOK(t) ==
@@ -39,8 +52,10 @@ Next == /\ l <= Len(Tr) /\ l' = l + 1
         /\ \/ l = 1 /\ Tr[l].e = "InvBegin"
            \/ Tr[l].e = "Inv" /\ InvOK(Tr[l])
            \/ Tr[l].e = "BurstMisuse" /\ MisuseOK(Tr[l])
+           \/ Tr[l].e = "InvSgl" /\ InvSglOK(Tr[l])
            \/ /\ Tr[l].e = "InvEnd"
               /\ Tr[l].n = SumRules(Len(Kinds))             \* every element of the catalogue was exercised
+              /\ Tr[l].nsgl = SglCount
               /\ Tr[l].nb = 5 * Len(Kinds)
               /\ Tr[l].unknown = 0
 Spec == Init /\ [][Next]_l
